@@ -7,6 +7,18 @@ CLAIMED = {
  "C03": ("vsim", "exploration", "deterministic simulation: seeded schedule search (random/sticky/PCT/starvation, basic-block preemption) over the unmodified thread pool, exactly-once/late-task/deadlock/livelock oracles, TSan-in-the-loop race oracle",
          "Seeded search over interleavings of the dispatcher and pool workers at atomic-operation and basic-block granularity, over short create/resize/dispatch/destroy histories; every failure replays from a decision list. Sampling, not exhaustive: the right level for a lock-free protocol whose bugs need specific interleavings.",
          "Sequentially consistent execution (weak-memory mistakes only via the TSan stage); std::atomic/std::thread re-bound by a force-included prelude; engine_thread.cc unmodified.", "3/C03"),
+ "C01": ("histsim", "exploration", "deterministic simulation of operation histories: seeded op sequences on a carrier mjData, twins manufactured by six routes (copy / state transfer into fresh, reset, used-and-poisoned instances / replay), volatile-state poison and seeded arena garbage as the injected fault, bitwise comparison",
+         "Seeded search over (model, history, twin route): any read of stale or uninitialised non-state memory changes bits. Sampling over models and histories, which is what the quantifier (every prior history of the receiver) asks for and unit tests cannot give.",
+         "Same binary, same process comparisons only; sleep-enabled models use copy/replay routes only (documented); mj_inverse preceded by mj_forward; documented list of lazily/conditionally computed arrays excluded on state-only routes.", "4/C01"),
+ "C04": ("histsim", "exploration", "deterministic simulation of operation histories: staged call on a used instance vs monolithic call on its full copy, seeded input changes between stages, stale lazy flags injected, bitwise comparison of the whole mjData",
+         "Seeded search over (model, prefix history, rule sequence, inputs changed between stages).",
+         "step1/step2 equivalence excludes RK4, sleeping and steps in which an automatic reset fires (documented); with sleeping enabled skip rules change no inputs.", "4/C04"),
+ "C26": ("histsim", "exploration", "deterministic simulation of operation histories on used instances: seeded and exhaustive state signatures, canary-padded buffers, whole-mjData 'nothing else changed' diff, reset vs fresh after volatile-state poison",
+         "Seeded signatures per model plus all 2^14 signatures for small models; receivers are used (stepped, poisoned) instances.",
+         "Plugin state not exercised; arena scratch arrays excluded from reset comparison.", "4/C26"),
+ "C38": ("vsim", "exploration", "deterministic simulation: sequential histories against a reference model op by op; 2-3 simulated threads under seeded schedules checked for linearizability (WGL search) against the same model; TSan-in-the-loop",
+         "Seeded search over operation histories and interleavings of the unmodified mjCCache.",
+         "Reference model encodes only the clauses of the statement; concurrent histories capped at 12 operations; sequentially consistent execution.", "3/C38"),
  "C40": ("vsim", "exploration", "deterministic simulation: seeded schedule search over concurrent registrations/lookups across the table block boundary, history oracle (dense, stable, unique slots; no partial object; real-time order), TSan-in-the-loop",
          "Seeded search over interleavings of 2-4 simulated threads registering and looking up objects in the unmodified GlobalTable (fresh table per run) and through the real plugin/provider API (forked child per run).",
          "Sequentially consistent execution; TSan stage for publication order; decoders/encoders covered through the shared template only.", "3/C40"),
